@@ -101,6 +101,10 @@ def value_range(fn, ap, depth=0):
                 m = re.search(r"RangeInclusive::<Idx>::new\((-?\d+), (-?\d+)\)", s)
                 if m:
                     return (int(m.group(1)), int(m.group(2)))
+                if "promoted" in s and facts.CURRENT is not None and isinstance(root[3], int):
+                    r2 = k1.hir_range_arg(facts.CURRENT, fn, root[3])      # `&(lo..=hi)`: a promoted constant, read from the HIR
+                    if r2:
+                        return r2
     return None
 
 
@@ -238,6 +242,20 @@ def _b_closure_of_numeric_match(F, s, e):
             m = re.search(r"numeric_match\(.*RangeInclusive::<Idx>::new\((-?\d+), (-?\d+)\)", recv)
             if t["callee"]["path"].endswith("and_then") and m and int(m.group(1)) >= 0:
                 return True, "closure of numeric_match(.., %s..=%s).and_then" % (m.group(1), m.group(2))
+            if t["callee"]["path"].endswith("and_then") and "numeric_match(" in recv and "promoted" in recv:
+                # the range is handed over by reference (`&(lo..=hi)`, a promoted constant): read it from the HIR
+                rap = p.apath(t["args"][0])
+                cur = rap
+                for _ in range(6):
+                    if cur[0][0] == "call" and cur[0][1].endswith("numeric_match"):
+                        r2 = k1.hir_range_arg(F, p, cur[0][3])
+                        if r2 and r2[0] >= 0:
+                            return True, "closure of numeric_match(.., &(%s..=%s)).and_then" % r2
+                        break
+                    if cur[0][0] == "call" and cur[0][2]:
+                        cur = cur[0][2][0]
+                    else:
+                        break
             return False, "closure is used as %s on %s" % (t["callee"]["path"].split("::")[-1], recv[:80])
     return False, "closure use not found"
 
